@@ -239,3 +239,17 @@ prop("C16",
      quick=dict(shards=2, timeout=500), thorough=dict(shards=16, timeout=1500), crash_is_violation=True,
      assumptions=COMMON + ["step mode (testNowMS) only; real-time pacing and chunked sessions are not exercised in this check",
                            "startNumber 0 (the sender's numbering with snr_ is outside the checked domain)"])
+
+prop("C07",
+     rule="rapid draws an asset (bundled or generated), 1-3 instants, 1-3 option sets from a pool of 38 URL options (segment "
+          "timeline, periods, DRM/ECCP, chunked, subtitles, SCTE-35, patch, ...) and a multiset of 6-30 requests (MPD, init, media of any "
+          "representation around the live edge, generated subtitles, MPD patch, pages, ingest API calls). Oracle: the (status, "
+          "content type, body hash) of every non-API request on a fresh instance in generated order is the reference; the same "
+          "requests must give the same answer when repeated within that pass, on the long-running shared instance in a permuted order "
+          "(twice), on an instance loaded from representation-data files, and when the multiset is served 1-3 times by 2-16 concurrent "
+          "workers on both instances. The binary is built with the race detector; any race report or process death is a violation. "
+          "Non-trivial = at least 4 distinct URLs of which at least 3 answered 200.",
+     quick=dict(shards=4, timeout=600), thorough=dict(shards=16, timeout=1700), race=True, crash_is_violation=True,
+     assumptions=COMMON + ["interleavings are sampled by the Go scheduler (16 cores), not enumerated: absence of races is not established",
+                           "requests carry an explicit nowMS; responses that read the wall clock are outside the compared set",
+                           "response headers other than Content-Type are not compared"])
